@@ -70,10 +70,10 @@ impl Dialect for MySqlDialect {
     ) -> Option<Result<crate::ast::Expr, ParserError>> {
         // Parse DIV as an operator
         if parser.parse_keyword(Keyword::DIV) {
-            Some(Ok(Expr::BinaryOp {
+            Some(parser.parse_expr().map(|right| Expr::BinaryOp {
                 left: Box::new(expr.clone()),
                 op: BinaryOperator::MyIntegerDivide,
-                right: Box::new(parser.parse_expr().unwrap()),
+                right: Box::new(right),
             }))
         } else {
             None
